@@ -13,7 +13,6 @@ import (
 	"time"
 
 	"github.com/arm-doe/sts"
-	"github.com/arm-doe/sts/fileutil"
 )
 
 type logMsg struct {
@@ -64,17 +63,32 @@ func (f *FileIO) Sent(file sts.Sent) {
 	<-f.loggedCh
 }
 
-func (f *FileIO) wasWritten(relPath, hash string, after time.Time, before time.Time) bool {
-	strings := []string{relPath}
-	if hash != "" {
-		strings = append(strings, fmt.Sprintf(":%s:", hash))
-	}
-	return f.logger.search(strings, after, before)
+func (f *FileIO) wasWritten(
+	relPath, hash string, mayRename bool, after time.Time, before time.Time,
+) bool {
+	prefix := relPath + ":"
+	return f.logger.eachLine(func(line string) bool {
+		// The name is the first field of a record; look at every record
+		// because the same name can be logged more than once
+		if !strings.HasPrefix(line, prefix) {
+			return false
+		}
+		if hash == "" {
+			return true
+		}
+		parts := strings.Split(line[len(prefix):], ":")
+		i := 0
+		if mayRename && len(parts) > 3 {
+			// Same layout rule as Parse: name:renamed:hash:size:time:
+			i = 1
+		}
+		return parts[i] == hash
+	}, after, before)
 }
 
 // WasSent tries to find the path specified between the times specified
 func (f *FileIO) WasSent(relPath, hash string, after time.Time, before time.Time) bool {
-	return f.wasWritten(relPath, hash, after, before)
+	return f.wasWritten(relPath, hash, false, after, before)
 }
 
 // Received logs a file after it's been received
@@ -91,7 +105,7 @@ func (f *FileIO) Received(file sts.Received) {
 
 // WasReceived tries to find the path specified between the times specified
 func (f *FileIO) WasReceived(relPath, hash string, after time.Time, before time.Time) bool {
-	return f.wasWritten(relPath, hash, after, before)
+	return f.wasWritten(relPath, hash, true, after, before)
 }
 
 // Parse reads the log files in the provided time range and calls the handler
@@ -362,26 +376,4 @@ func (rf *rollingFile) eachLine(handler func(string) bool,
 		return false
 	}, start, stop)
 	return broke
-}
-
-// search will look for a given text patterns to match a single line in the log
-// history
-func (rf *rollingFile) search(text []string, start time.Time, stop time.Time) bool {
-	if len(text) == 0 {
-		return false
-	}
-	b := []byte(text[0])
-	var line string
-	return rf.each(func(path string) bool {
-		line = fileutil.FindLine(path, b)
-		if line == "" {
-			return false
-		}
-		for _, t := range text[1:] {
-			if !strings.Contains(line, t) {
-				return false
-			}
-		}
-		return true
-	}, start, stop)
 }
